@@ -20,17 +20,51 @@ namespace Mv.Core
 theorem appendPutG_walSeq (m : Mem) (a : PutArgs) (sup reuse : Option Nat) :
     m.appendPutG (m.seq + 1) a sup reuse = m.appendPut a sup reuse := rfl
 
+/-- a rejected `putTail` leaves the handle as it was -/
+theorem putTail_rejected (m : Mem) (a : PutArgs) (sup reuse : Option Nat) (t : Trace) :
+    (m.putTail a sup reuse t).2.isAck = false → (m.putTail a sup reuse t).1 = m := by
+  unfold Mem.putTail
+  repeat' split
+  all_goals first
+    | (intro _; rfl)
+    | (intro h; simp [Out.isAck] at h)
+
+/-- an accepted `putTail` is: WAL appends, automatic checkpoint, triplet cards; it answers the sequence
+    number of the parent record -/
+theorem putTail_accepted (m : Mem) (a : PutArgs) (sup reuse : Option Nat) (t : Trace) :
+    (m.putTail a sup reuse t).2.isAck = true →
+    m.putTail a sup reuse t =
+      ((((m.appendPut a sup reuse).afterAppend t).addCards a.nc (m.seq + 1)), .seq (m.seq + 1)) := by
+  unfold Mem.putTail
+  repeat' split
+  all_goals first
+    | (intro _; rfl)
+    | (intro h; simp [Out.isAck] at h)
+
 theorem putTailG_walSeq (m : Mem) (a : PutArgs) (sup reuse : Option Nat) (t : Trace) :
-    m.putTailG .walSeq a sup reuse t = m.putTail a sup reuse t := rfl
+    m.putTailG .walSeq a sup reuse t = m.putTail a sup reuse t := by
+  unfold Mem.putTailG
+  split
+  · rename_i h
+    rw [putTail_accepted m a sup reuse t h]
+    rfl
+  · rfl
 
 theorem putCoreG_walSeq (m : Mem) (a : PutArgs) (sup reuse : Option Nat) (t : Trace) :
-    m.putCoreG .walSeq a sup reuse t = m.putCore a sup reuse t := rfl
+    m.putCoreG .walSeq a sup reuse t = m.putCore a sup reuse t := by
+  simp only [Mem.putCoreG, Mem.putCore, putTailG_walSeq]
+  rfl
 
 theorem updateG_walSeq (m : Mem) (id : Nat) (u : UpdArgs) (t : Trace) :
-    m.updateG .walSeq id u t = m.update id u t := rfl
+    m.updateG .walSeq id u t = m.update id u t := by
+  simp only [Mem.updateG, Mem.update, putCoreG_walSeq]
+  rfl
 
 theorem stepG_walSeq (m : Mem) (op : Op) : stepG .walSeq m op = step m op := by
-  cases op <;> rfl
+  cases op with
+  | put a t => exact putCoreG_walSeq m a none none t
+  | update id u t => exact updateG_walSeq m id u t
+  | _ => rfl
 
 theorem runG_walSeq (m : Mem) (ops : List Op) : runG .walSeq m ops = run m ops := by
   induction ops generalizing m with
@@ -176,7 +210,6 @@ theorem putTailG_derived (p : IdPolicy) (m : Mem) (a : PutArgs) (sup reuse : Opt
   revert hack
   unfold Mem.putTailG
   split
-  · intro h; simp [Out.isAck] at h
   · intro _
     have ha := afterAppend_der (m.appendPutG (p.id m) a sup reuse) t
     obtain ⟨c1, c2, c3⟩ := addCards_adds ((m.appendPutG (p.id m) a sup reuse).afterAppend t) a.nc (p.id m)
@@ -184,6 +217,9 @@ theorem putTailG_derived (p : IdPolicy) (m : Mem) (a : PutArgs) (sup reuse : Opt
       show (if a.q then m.queue ++ [p.id m] else m.queue) = _
       split <;> simp
     exact ⟨by rw [c1, ha.cards]; rfl, by rw [c2, ha.queue, hq], fun r => by rw [c3 r, ha.recs]; rfl⟩
+  · rename_i h
+    intro h'
+    exact absurd h' h
 
 theorem enableVec_der (m : Mem) : SameDer m.enableVec m := by
   unfold Mem.enableVec; split
@@ -234,8 +270,10 @@ theorem putTailG_out (p : IdPolicy) (m : Mem) (a : PutArgs) (sup reuse : Option 
   revert hack
   unfold Mem.putTailG
   split
-  · intro h; simp [Out.isAck] at h
   · intro _; rfl
+  · rename_i h
+    intro h'
+    exact absurd h' h
 
 theorem seq_enableVec (m : Mem) : m.enableVec.seq = m.seq := by
   unfold Mem.enableVec; split <;> rfl
@@ -310,7 +348,6 @@ theorem putTailG_sim (p : IdPolicy) (m : Mem) (a : PutArgs) (sup reuse : Option 
     ((m.putTailG p a sup reuse t).2.isAck = false → abs (m.putTailG p a sup reuse t).1 = abs m) := by
   unfold Mem.putTailG
   split
-  · exact ⟨hi, fun h => by simp [Out.isAck] at h, fun _ => rfl⟩
   · have hf : (m.appendPutG (p.id m) a sup reuse).frames = m.frames := rfl
     have hp : (m.appendPutG (p.id m) a sup reuse).pending = m.pending ++ putRecords m.seq a sup reuse := rfl
     have hpi : (m.appendPutG (p.id m) a sup reuse).pendingInserts = m.pendingInserts + (putRecords m.seq a sup reuse).length := rfl
@@ -328,6 +365,7 @@ theorem putTailG_sim (p : IdPolicy) (m : Mem) (a : PutArgs) (sup reuse : Option 
     refine ⟨hc.inv (afterAppend_inv _ t hi1), fun _ => ?_, fun h => by simp [Out.isAck] at h⟩
     show abs (((m.appendPutG (p.id m) a sup reuse).afterAppend t).addCards a.nc (p.id m)) = _
     rw [hc.abs, afterAppend_abs _ t hi1, ha1]
+  · exact putTail_sim m a sup reuse t hi hsup hreu
 
 theorem putCoreG_sim (p : IdPolicy) (m : Mem) (a : PutArgs) (sup reuse : Option Nat) (t : Trace) (hi : Inv m)
     (hsup : ∀ x, sup = some x → x < m.frames.length) (hreu : ∀ x, reuse = some x → x < m.frames.length) :
